@@ -74,6 +74,22 @@ Proof. exact rs_cached_indexes_correct. Qed.
 Print Assumptions C03_rocks_cached_indexes_correct.
 
 
+(* (6) MemoryStorage stays well formed (dummy entry + contiguous indexes) under ALL sequences of
+       ApplySnapshot / CreateSnapshot / Compact / contiguous Append (a failing op — error or panic — leaves
+       it unchanged); Term answers ErrCompacted below the dummy index, ErrUnavailable above the last
+       index and otherwise the term of the entry stored at exactly that index *)
+Theorem C03_memory_storage_wf_invariant : forall ops, Forall mop_ok ops -> wf_ms (fold_left ms_step ops ms_new).
+Proof. exact ms_wf_invariant. Qed.
+Print Assumptions C03_memory_storage_wf_invariant.
+
+Theorem C03_memory_term_spec : forall s off i, wf_ms s -> ms_offset s = Ok off ->
+  (i < off -> ms_term s i = Err ErrCompacted) /\
+  (off + nlen (ms_ents s) <= i -> ms_term s i = Err ErrUnavailable) /\
+  (off <= i -> i < off + nlen (ms_ents s) ->
+     exists e, nnth (i - off) (ms_ents s) = Some e /\ eindex e = i /\ ms_term s i = Ok (eterm e)).
+Proof. exact ms_term_spec. Qed.
+Print Assumptions C03_memory_term_spec.
+
 (* ====================================================================================== *)
 (* The property over all schedules, on the abstract protocol of coq/RaftAbs (Model.v: per-node term /
    vote / role / log / commit / configuration, the network as grant, ack and campaign records, crash and
